@@ -460,6 +460,55 @@ def derived_locals(aid, defs, fn_body):
     return out
 
 
+def propagates(n, parents):
+    """the Result of the call n is handed on: `n?`, or n is the value of a block / branch / `return` whose own value is handed on
+    (the tail call of a helper that was inlined under `?`)"""
+    cur = n
+    for par in reversed(parents):
+        k = par.get("k")
+        if k == "try":
+            return True
+        if k in ("return", "ireturn"):
+            return True
+        if k == "blockexpr":
+            cur = par
+            continue
+        if k == "block":
+            if par.get("tail") is cur:
+                cur = par
+                continue
+            return False
+        if k == "if" and (par.get("then") is cur or par.get("else") is cur):
+            cur = par
+            continue
+        if k == "match" and any(a_["body"] is cur for a_ in par["arms"]):
+            cur = par
+            continue
+        if k is None and isinstance(par, dict) and par.get("body") is cur:      # a match arm
+            cur = par
+            continue
+        if k in ("paren",):
+            cur = par
+            continue
+        return False
+    return False
+
+
+def following(n, parents):
+    """the statements after the one holding n in the nearest enclosing block"""
+    cur = n
+    for par in reversed(parents):
+        if par.get("k") == "block":
+            for i_, st_ in enumerate(par["stmts"]):
+                if st_ is cur or (st_.get("k") == "semi" and st_["e"] is cur):
+                    return par["stmts"][i_ + 1:] + ([par["tail"]] if "tail" in par else [])
+            return []
+        if par.get("k") not in ("semi",):
+            return []
+        cur = par
+    return []
+
+
 def related_widths(ai, aj, call, ix, f, fns, defs):
     A = derived_locals(ai["id"], defs, f["body"]) if ai.get("k") == "local" else set()
     B = derived_locals(aj["id"], defs, f["body"]) if aj.get("k") == "local" else set()
@@ -477,10 +526,13 @@ def related_widths(ai, aj, call, ix, f, fns, defs):
         for n, parents in walk_parents(region):
             par = parents[-1] if parents else None
             subj = None
-            if n.get("k") == "mcall" and par is not None and par.get("k") == "try" and (callee(n) or "").startswith(P):
+            if n.get("k") == "mcall" and (callee(n) or "").startswith(P) and propagates(n, parents):
                 subj = n
             elif n.get("k") in ("if", "match"):
                 rejects = any(x.get("k") == "return" or (x.get("k") == "ctor" and callee(x).endswith("Result::Err")) or (x.get("k") == "mcall" and callee(x) == P + "add_error") for x in walk(n))
+                if not rejects:
+                    # `if widths agree { return Ok(()) } <report the error>`: the rejection follows the test in the same block
+                    rejects = any((x.get("k") == "ctor" and callee(x).endswith("Result::Err")) or (x.get("k") == "mcall" and callee(x) == P + "add_error") for st_ in following(n, parents) for x in walk(st_))
                 if rejects:
                     subj = n["cond"] if n["k"] == "if" else n["scrut"]
             if subj is not None:
@@ -493,7 +545,7 @@ def related_widths(ai, aj, call, ix, f, fns, defs):
         """each side checked (fallibly) against the same constant type pins both widths"""
         for n, parents in walk_parents(region):
             par = parents[-1] if parents else None
-            if n.get("k") == "mcall" and par is not None and par.get("k") == "try" and callee(n) == P + "check_type":
+            if n.get("k") == "mcall" and callee(n) == P + "check_type" and propagates(n, parents):
                 x, y = n["args"][0], n["args"][1]
                 for u, v in ((x, y), (y, x)):
                     lu = {z["id"] for z in walk(u) if z.get("k") == "local"}
@@ -529,6 +581,7 @@ def related_widths(ai, aj, call, ix, f, fns, defs):
 
 
 def builder_calls(ctx, reach, fns, pre):
+    _FNS["fns"] = fns
     n_calls = 0
     n_pairs = 0
     for p in reach:
@@ -653,6 +706,28 @@ def sort_table_nonzero(ctx, fns):
     return True
 
 
+_FNS = {}
+
+
+def passes_through(cal):
+    """index of the argument a reader helper returns unchanged on success (every Ok(..) it builds wraps that parameter), else None"""
+    fl = _FNS.get("fns", {}).get(cal)
+    if not fl or not cal.startswith(P):
+        return None
+    f = fl if isinstance(fl, dict) else fl[0]
+    params = [binding_of_pat(q) for q in f["params"]]
+    ids = [b[1] for b in params if b and b[0] != "self"]
+    oks = [x for x in walk(f["body"]) if x.get("k") == "ctor" and callee(x).endswith("Result::Ok")]
+    idx = set()
+    for x in oks:
+        a_ = peel(x["args"][0]) if x.get("args") else {}
+        if a_.get("k") == "local" and a_["id"] in ids:
+            idx.add(ids.index(a_["id"]))
+        else:
+            return None
+    return idx.pop() if len(idx) == 1 else None
+
+
 def operand_source(lid, defs, depth):
     """'line reference token k' / 'parsed integer token k' / 'sort token k' when the local comes from the input line"""
     if depth > 4:
@@ -680,6 +755,11 @@ def operand_source(lid, defs, depth):
             return "sort id in token %s" % c08.tok_index(c["args"][1])
         if cal.startswith(CTX + "::"):
             return None  # results of our own builders are well-formed once the builder's own preconditions were checked at its call
+        pt = passes_through(cal)
+        if pt is not None and pt < len(c["args"]):
+            # `let checked = self.check_expr_type(e, ..)?`: the helper hands its argument back on success
+            a_ = peel(c["args"][pt])
+            return operand_source(a_["id"], defs, depth + 1) if a_.get("k") == "local" else None
         if c["name"] in ("get_type", "get_bit_vector_width", "unwrap") or True:
             for x in walk(c):
                 if x.get("k") == "local" and x["id"] != lid:
